@@ -17,22 +17,45 @@ for m in sorted(glob.glob(os.path.join(V, "seeded", "*", "meta.json"))):
     d = json.load(open(m))
     pid, k = name.split("-", 1)
     k0 = k.rstrip("b")
-    log = f"/tmp/seedtest_{pid}-{k0}.log"
+    r2 = k.startswith("r2-")
+    if r2:
+        kk = k[3:]
+        cands = [f"/tmp/r2test_{pid}-{kk}.y.log", f"/tmp/r2test_{pid}-{kk}.log", f"/tmp/r2test_{pid}-{kk}.x.log"]
+        log = next((c for c in cands if os.path.exists(c) and "VIOLATION" in open(c).read()), None) or next((c for c in cands if os.path.exists(c)), None)
+        first = f"/tmp/r2test_{pid}-{kk}.log"
+    else:
+        log = f"/tmp/seedtest_{pid}-{k0}.log"
+        first = None
     if name in ("C15-2b",): log = None
     det = d.get("detected_by")
-    if log and os.path.exists(log):
-        t = open(log).read()
+    def verdict(path):
+        t = open(path).read()
         kind = re.search(r"# property \S+ violated on the implementation: (\S+)", t)
-        line = re.search(r"^(C\d+ quick: .*)$", t, re.M)
-        viol = re.search(r"^VIOLATION .*$", t, re.M)
-        if viol:
-            nf = "no-failing-input-found" in viol.group(0)
-            nd = re.search(r"(\d+) correspondence disagreements", line.group(1)).group(1) if line else "?"
-            what = ("VIOLATION no-failing-input-found (broken obligation named in the replay file)" if nf
-                    else "VIOLATION with concrete replay, monitor kind " + (kind.group(1) if kind else "?"))
-            det = "bin/check " + pid + ": " + what + "; " + nd + " correspondence disagreements"
-        elif not det:
-            det = "MISSED"
+        viol = re.findall(r"^=== (C\d+) with.*?\n(?:(VIOLATION[^\n]*)\n)?(C\d+ quick: [^\n]*)", t, re.M)
+        out = []
+        for chk, v, line in viol:
+            nd = re.search(r"(\d+) correspondence disagreements", line).group(1)
+            if v:
+                nf = "no-failing-input-found" in v
+                what = ("VIOLATION no-failing-input-found (broken obligation named in the replay file)" if nf
+                        else "VIOLATION with concrete replay" + (", monitor kind " + kind.group(1) if kind else ""))
+                out.append(f"bin/check {chk}: {what}; {nd} correspondence disagreements")
+            else:
+                out.append(f"bin/check {chk}: exit 0 (missed)")
+        return out
+    if log and os.path.exists(log):
+        vs = verdict(log)
+        hits = [v for v in vs if "VIOLATION" in v]
+        det = "; ".join(hits) if hits else ("MISSED" if not det else det)
+    if r2:
+        fr = verdict(first) if os.path.exists(first) else []
+        fhit = [v for v in fr if "VIOLATION with concrete replay" in v]
+        fnf = [v for v in fr if "no-failing-input-found" in v]
+        FIRST[name] = "caught" if fhit else ("no concrete replay (broken obligation only)" if fnf else "missed by the property's own check")
+        xl = f"/tmp/r2test_{pid}-{kk}.x.log"
+        if os.path.exists(xl) and not fhit:
+            xh = [v for v in verdict(xl) if "VIOLATION with concrete replay" in v]
+            if xh: FIRST[name] += "; caught by another property's check: " + xh[0].split(":")[0]
     if name == "C07-2": det = "bin/check C11: VIOLATION with concrete replay, monitor kind not-durable-at-prepare:mc1 (restore after the phase-1 close request)"
     if name in ("C15-2b", "C11-1b"): det = "bin/check C15: VIOLATION channel-id-reuse; bin/check C11: VIOLATION not-durable-at-prepare:forget (both with concrete replays)"
     d["detected_by"] = det
